@@ -134,6 +134,7 @@ def cases(E):
         cs.append(Case("vf.contracts.c_codegen.balanced_scope_contract", kind, shape_balanced(kind), target=[G + "generate_compound", G + "generate_scope"]))
     cs += assign_frame_cases(E)
     cs += scope_creation_cases(E)
+    cs += chain_cases(E)
     # a macro argument that mentions a name is resolved in the scope of the CALL, also after sibling scopes that define the same name privately
     from vf.props import C09 as c09
     cs += [c for c in c09.own_cases(E)]
@@ -155,6 +156,24 @@ def shape_scope_creation(kind):
         B.I.hmut(B.st, B.I.hget(B.st, res).fields["scopes"]).items.append(sib)
         return {"resolver": res, "kind": kind, "name": "s"}
     return sh
+
+
+def shape_chain(depth, kinds):
+    def sh(B):
+        res = S.resolver(B)
+        v = B.int("value")
+        top = S.root_symbols(B, res, {"n": v})
+        cur = top
+        for i in range(depth):
+            cur = S.scope(B, res, cur, cls="a816.symbols." + kinds[i % len(kinds)], **({"name": "s%d" % i} if kinds[i % len(kinds)] == "NamedScope" else {}))
+            B.I.hmut(B.st, B.I.hget(B.st, res).fields["scopes"]).items.append(cur)
+        return {"inner": cur, "value": v, "depth": depth}
+    return sh
+
+
+def chain_cases(E):
+    return [Case("vf.contracts.c_scopes.value_for_chain_contract", f"defined {d} scopes further out, empty {'/'.join(k)} scopes in between", shape_chain(d, k),
+                 target=[Y + "Scope.value_for", Y + "Scope.__getitem__"]) for d, k in ((1, ("Scope",)), (2, ("Scope", "InternalScope")), (3, ("InternalScope", "Scope", "NamedScope")))]
 
 
 def scope_creation_cases(E):
